@@ -5,6 +5,7 @@ sys.dont_write_bytecode = True
 ROOT = os.path.dirname(os.path.dirname(os.path.abspath(__file__)))
 sys.path.insert(0, ROOT)
 from sa.localnames import binding_sequence, outer_functions, TABLE_PATH
+from sa.normalise import normalise_tree
 out = {}
 base = "/repo"
 for dp, dn, fns in os.walk(os.path.join(base, "ariadne_codegen")):
@@ -14,6 +15,7 @@ for dp, dn, fns in os.walk(os.path.join(base, "ariadne_codegen")):
         p = os.path.join(dp, f)
         rel = os.path.relpath(p, base)
         tree = ast.parse(open(p).read())
+        normalise_tree(tree)  # the table describes the normal form the analyser works on
         ent = {}
         for q, fn in outer_functions(tree):
             names, kinds = binding_sequence(fn)
